@@ -66,19 +66,20 @@ class TableSaving(BaseSaving):
         return self._T[cuts[:, 0], cuts[:, 1]]
 
 
-def hscore(seed: int, R: int, cut) -> int:
+def hscore(seed: int, R: int, cut, neg: int = 0) -> int:
     """the shared pseudo-random integer score; identical definition in Driver.lean"""
     x = seed
     for v in cut:
         x = x * 64 + int(v)
-    return ((x * 1103515245 + 12345) // 65536) % R
+    return ((x * 1103515245 + 12345) // 65536) % R - neg
 
 
 class HashChangeScore(BaseChangeScore):
-    def __init__(self, seed=0, R=5, msize=1):
+    def __init__(self, seed=0, R=5, msize=1, neg=0):
         self.seed = seed
         self.R = R
         self.msize = msize
+        self.neg = neg
         super().__init__()
 
     @property
@@ -89,14 +90,15 @@ class HashChangeScore(BaseChangeScore):
         return self
 
     def _evaluate(self, cuts):
-        return np.array([[float(hscore(self.seed, self.R, c))] for c in cuts]).reshape(-1, 1)
+        return np.array([[float(hscore(self.seed, self.R, c, self.neg))] for c in cuts]).reshape(-1, 1)
 
 
 class HashLocalAnomalyScore(BaseLocalAnomalyScore):
-    def __init__(self, seed=0, R=5, msize=1):
+    def __init__(self, seed=0, R=5, msize=1, neg=0):
         self.seed = seed
         self.R = R
         self.msize = msize
+        self.neg = neg
         super().__init__()
 
     @property
@@ -107,7 +109,7 @@ class HashLocalAnomalyScore(BaseLocalAnomalyScore):
         return self
 
     def _evaluate(self, cuts):
-        return np.array([[float(hscore(self.seed, self.R, c))] for c in cuts]).reshape(-1, 1)
+        return np.array([[float(hscore(self.seed, self.R, c, self.neg))] for c in cuts]).reshape(-1, 1)
 
 
 class MultisetCost(BaseCost):
